@@ -35,9 +35,42 @@ Theorem C18_new_word_list_values : forall title emit l o ds d,
   d = DDuplicates (Z.of_nat (length l - length (kept title l))).
 Proof. exact new_word_list_diag_values. Qed.
 
+(** ---- every output statement of the CURRENT source (coq/Gen/OutputSites.v, regenerated on every run) ---- *)
+From Spg.Gen Require OutputSites.
+From Coq Require Import String.
+Open Scope string_scope.
+Definition site_sig (s : OutputSites.out_site) :=
+  (OutputSites.site_func s, OutputSites.site_callee s, OutputSites.site_stream s, map OutputSites.arg_kind (OutputSites.site_args s)).
+(** the package has exactly these statements that can write to standard output, standard error, the process log or a panic message ... *)
+Theorem C18_output_sites :
+  map site_sig OutputSites.src_output_sites =
+  [("CharRecipe.SuccessProbability", "log.Println", "log", ["conststring"]);
+   ("CharRecipe.SuccessProbability", "log.Println", "log", ["conststring"]);
+   ("randomUint32", "panic", "panic", ["conststring"; "error-method-string"]);
+   ("entropySimple", "fmt.Printf", "stdout", ["int"]);
+   ("randomUint32n", "panic", "panic", ["conststring"]);
+   ("NewWordList", "log.Printf", "log", ["int"])].
+Proof. vm_compute. reflexivity. Qed.
+(** ... every argument of which is a constant string, an integer, a float or the text of a read error:
+    no value of token, password, word or separator type reaches an output statement *)
+Theorem C18_output_sites_numeric :
+  forallb (fun s => forallb (fun a => existsb (String.eqb (OutputSites.arg_kind a)) ["conststring"; "int"; "float"; "error-method-string"])
+                            (OutputSites.site_args s)) OutputSites.src_output_sites = true.
+Proof. vm_compute. reflexivity. Qed.
+(** the two formatted statements are the two templates of the model (Model/Diag.v) *)
+Theorem C18_templates_are_the_formats :
+  map (fun s => bos (OutputSites.site_format s))
+      (filter (fun s => String.eqb (OutputSites.site_callee s) "fmt.Printf" || String.eqb (OutputSites.site_callee s) "log.Printf") OutputSites.src_output_sites)
+  = [(tpl_entropy_simple ++ bos "%d" ++ nl)%list; (bos "%d" ++ tpl_duplicates ++ nl)%list].
+Proof. vm_compute. reflexivity. Qed.
+Close Scope string_scope.
+
 Print Assumptions C18_nonintereference_char.
 Print Assumptions C18_nonintereference_wordlist.
 Print Assumptions C18_grammar.
 Print Assumptions C18_char_values.
 Print Assumptions C18_wordlist_values.
 Print Assumptions C18_new_word_list_values.
+Print Assumptions C18_output_sites.
+Print Assumptions C18_output_sites_numeric.
+Print Assumptions C18_templates_are_the_formats.
